@@ -70,6 +70,16 @@ INFO = {
  "C15-j": ("selectNodes guard `<` became `!=`: a list longer than requested gets every remaining fit node appended", "percentage replicas and nodes leaving during a canary, or replicas lowered", ""),
  "C19-j": ("manual unpause applied once before the per-pod loop (its switch arm removed): an unpaused canary is re-paused by the auto-pause arm", "auto-paused canary with a lasting reason, then `canary unpause`", "MISSED (C19 did not run the stream that evaluates the canary) -> C19 runs manage_canary; C08.canary-resumes-on-unpause / C06.paused-iff"),
  "C20-j": ("labels literally called name / namespace skipped from the keys but values still read by position", "a label called name or namespace plus one sorting after it", "MISSED -> name / namespace / Name in the label-key alphabet; C20.pairs"),
+ # eleventh wave (-k); C11 re-invented C07-b / C05-g (seeded/duplicates-wave11.json)
+ "C02-k": ("the node-override decode error is now returned by the pod builder and createPods returns early on it", "an eligible node with a malformed resources-override annotation that needs a pod", ""),
+ "C04-k": ("Failed-pod replacement hoisted before the ignoreNodes test in FilterAndMapPodsByNode", "a Failed pod on a canary node while the active replica set syncs", ""),
+ "C05-k": ("replica-set list selector built from ALL current labels of the ExtendedDaemonSet", "a metadata label of the ExtendedDaemonSet changed after the active replica set was created", ""),
+ "C06-k": ("HighestRestartCount skips containers whose lastState has no Terminated record", "highest restart count on a container with an empty lastState", ""),
+ "C07-k": ("clean-up no longer protects the up-to-date replica set when it is Canary-Failed", "rollback interrupted between its two writes, > 2 min, failed replica set drained", "no-failing-input-found (506 s) -> clause C07.rollback-keeps-uptodate"),
+ "C09-k": ("cap check on int32(result): the ramp wraps once it reaches 2^31", "replica set active for months, short interval, large increase", "no-failing-input-found (346 s) -> max_creation cases with a months-old Active condition; C09.ramp"),
+ "C16-k": ("validation returns early when auto-fail is disabled (manual-mode checks behind it)", "manual mode + duration + autoFail.enabled=false", "no-failing-input-found (333 s; only the broken src_validateSpec bridge) -> clause C16.validate-rejects-manual-durations"),
+ "C17-k": ("canary clean-up records PodsCleanupDone on params.NewStatus instead of result.NewStatus", "canary role, non-empty clean-up list, a failing Delete", ""),
+ "C18-k": ("label-only selectors converted with labels.SelectorFromSet (no validation)", "a selector unusable through an invalid label value / key, no expressions", "MISSED -> label-only unusable selectors in the settings generator; C18.no-reference-or-bad-selector-in-error"),
  "C19-h": ("rolling-update pause / freeze guard reads status.state == Canary instead of status.canary", "a paused canary (state Canary Paused) or a state string not yet refreshed", "MISSED -> the cli generator draws the state string independently of status.canary; C19.refuses-without-precondition"),
 }
 def main():
